@@ -9,8 +9,10 @@
 // Output (one line):
 //   steps t:site ... | results t:tag=v ... | blocked | K k head h tail t slots st:tag ... errs e0 e1 e2 e3 e4 dtor n | status S
 //   slots: per slot the ledger state of the object at that address (0 unborn 1 alive 2 moved-from 3 dead) and, when alive, its tag
+//   errs: lifetime misuses on the slot addresses (constructOverLive doubleDestroy destroyUnborn 0 0), recomputed from the
+//         ledger's ordered event trace (see SlotErrs below).
 //   dtor: after a run that finished, the buffer is destroyed and n = number of slots whose object still needs a destructor
-//         (-1 when the run did not finish), followed by the error counters again in `errs`.
+//         (-1 when the run did not finish), followed by the misuse counters again.
 #include <atomic>
 #include <cstdio>
 #include <cstdlib>
